@@ -389,6 +389,21 @@ def run_case(case, ctx):
                 ctx.violation("%s:stdout-listing-differs" % vtag, "listing via sys.stdout differs from listing via stream (%s)" % where)
         except Exception as e:
             ctx.violation("%s:classic-to-stdout:raises:%s" % (vtag, type(e).__name__), "%r (%s)" % (e, where))
+    # outstream=None means "standard output" (disco: out or sys.stdout): every format must then print the same listing there
+    if not heavy and os.path.getsize(path) <= 2500 and (case["kind"] != "prog" or case["id"].endswith("@module") or _TIER[0] != "quick"):
+        for fmt in FORMATS:
+            if fmt not in listings or fmt == "classic":
+                continue
+            ctx.count("outstream_none_routes")
+            try:
+                with FdCapture(cap) as c:
+                    disassemble_file(path, None, fmt)
+                a = re.sub(r"0x[0-9a-f]{6,}", "0xADDR", c.data)
+                b = re.sub(r"0x[0-9a-f]{6,}", "0xADDR", listings[fmt][0])
+                if a != b:
+                    ctx.violation("%s:%s:outstream-none-differs" % (vtag, fmt), "listing printed for outstream=None differs from the listing written to a stream (%s)" % where)
+            except Exception as e:
+                ctx.violation("%s:%s:outstream-none:raises:%s" % (vtag, fmt, type(e).__name__), "%r (%s)" % (e, where))
     for fmt in ("classic", "bytes"):
         if fmt not in listings:
             continue
